@@ -75,15 +75,16 @@ type Problem struct {
 }
 
 type FS struct {
-	tmu      sync.RWMutex // guards the tree (Kids maps, Removed flags): sessions may call into the FS concurrently
-	mu       sync.Mutex
-	Root     *Node
-	nextID   *uint64
-	Handles  []*Handle
-	Log      []Call
-	Plan     map[int]Fault
-	calls    int
-	problems []Problem
+	AuthRequired bool         // RequireAuth answers true and Auth hands out an AuthH
+	tmu          sync.RWMutex // guards the tree (Kids maps, Removed flags): sessions may call into the FS concurrently
+	mu           sync.Mutex
+	Root         *Node
+	nextID       *uint64
+	Handles      []*Handle
+	Log          []Call
+	Plan         map[int]Fault
+	calls        int
+	problems     []Problem
 	// Gate, if set, is invoked at the entry of every FS call (after the monitors have
 	// accounted for it). It may block; it is how in-flight sets are built.
 	Gate func(c *Call)
@@ -164,13 +165,26 @@ var ErrInjectedFS = errors.New("injected file-system failure")
 
 // ---- p9p.FileSys
 
-func (f *FS) RequireAuth(context.Context) bool { return false }
+func (f *FS) RequireAuth(context.Context) bool { return f.AuthRequired }
 func (f *FS) Auth(ctx context.Context, uname, aname string) (p9p.AuthFile, error) {
 	c := f.begin(&Call{Op: "auth", Ctx: ctx})
-	c.Failed = true
-	f.finish(c)
-	return nil, errors.New("fsx: no auth")
+	defer f.finish(c)
+	if !f.AuthRequired || c.Fault != NoFault {
+		c.Failed = true
+		return nil, errors.New("fsx: no auth")
+	}
+	return &AuthH{}, nil
 }
+
+// AuthH is the authentication file handed out when AuthRequired is set. It is not a
+// directory entry: the session keeps it on an auth fid that has no entry bound.
+type AuthH struct{ Closed int32 }
+
+func (a *AuthH) Read(ctx context.Context, p []byte, off int64) (int, error)  { return 0, nil }
+func (a *AuthH) Write(ctx context.Context, p []byte, off int64) (int, error) { return len(p), nil }
+func (a *AuthH) IOUnit() int                                                 { return 0 }
+func (a *AuthH) Close(ctx context.Context) error                             { atomic.AddInt32(&a.Closed, 1); return nil }
+func (a *AuthH) Success() bool                                               { return true }
 func (f *FS) Attach(ctx context.Context, uname, aname string, af p9p.AuthFile) (p9p.Dirent, error) {
 	c := f.begin(&Call{Op: "attach", Name: uname + "\x00" + aname, Ctx: ctx})
 	defer f.finish(c)
